@@ -4,13 +4,17 @@ Driver for the I/O-system family `io`:  `io <op> <postfix system program> ; <arg
 system program
   `P n m p dt k (name val)^k  poly^n  hflag poly^p`   polynomial system (`hflag = 0`: `outfcn=None`)
       poly = `nterms (coef nvars (var exp)^nvars)^nterms`, var = `t | x<i> | u<i> | p<name>`
+  `Q n m p dt k (name val)^k  j (name default)^j  poly^n  hflag poly^p`   the same with callables that read
+      further parameters as `params.get(name, default)`
   `L n p m dt A… B… C… D…`   StateSpace leaf          `S q` scalar      `A p m v…` array
-  `mul add sub div neg`, `fb sign`
+  `mul add sub div neg`, `fb sign`, `fbp sign env` (`feedback(other, sign, params=env)`)
 operations
   `shape`                                                  → `ok n m p dt`
   `resp  T teval U X0 env`                                 → `ok bits=b N n m p x… u… y…` | `ok overflow b`
   `lin   t X0 U0 eps env`                                  → `ok A B C D`
   `op    t X0 U0 Y0 dx0 iu iy ix idx env`                  → `ok sol x… u… y…` | `ok singular` | `ok nonsquare`
+  `linp  t (V X0 | O states inputs) U0 eps env`            → `ok A B C D`   (`U0 = N`: omitted / `None`)
+  `dyn   t x u env`, `out t x u env`                       → `ok v…`
 Trusted glue (parsing, printing, the exact linear solve of the affine root problem, whose
 result is checked against `rootfun` before it is printed).
 -/
@@ -58,6 +62,20 @@ def pPolySys : P DIO := do
     pure (some a.toList)
   pure (DIO.ofPoly n m p dt params fs.toList hs)
 
+def pPolySysD : P DIO := do
+  let n ← pNat
+  let m ← pNat
+  let p ← pNat
+  let dt ← pDt
+  let params ← pEnv
+  let defaults ← pEnv
+  let fs ← pArray n pPoly
+  let hflag ← pNat
+  let hs ← if hflag == 0 then pure none else do
+    let a ← pArray p pPoly
+    pure (some a.toList)
+  pure (DIO.ofPolyD n m p dt params defaults fs.toList hs)
+
 def pSSLeaf : P DIO := do
   let G ← SS.pLeaf
   let G' := SS.force G
@@ -71,6 +89,16 @@ def pVArg : P VArg := do
   | "L" => pure (.list (← pList (pList pRat)))
   | "A" => pure (.array (← pList pRat))
   | _ => throw s!"varg:{k}"
+
+def pXArg : P XArg := do
+  let k ← tok
+  match k with
+  | "V" => pure (.vec (← pVArg))
+  | "O" => do
+    let xs ← pVArg
+    let us ← pVArg
+    pure (.op xs us)
+  | _ => throw s!"xarg:{k}"
 
 def pUElem : P UElem := do
   let k ← tok
@@ -118,6 +146,7 @@ partial def pProgram (stack : List IOperand) : P (Except Err DIO) := do
     | [.sys G] => pure (.ok G)
     | _ => throw "stack"
   | "P" => do let G ← pPolySys; pProgram (.sys G :: stack)
+  | "Q" => do let G ← pPolySysD; pProgram (.sys G :: stack)
   | "L" => do let G ← pSSLeaf; pProgram (.sys G :: stack)
   | "S" => do let c ← pRat; pProgram (.scalar c :: stack)
   | "A" => do
@@ -133,6 +162,12 @@ partial def pProgram (stack : List IOperand) : P (Except Err DIO) := do
     let sign ← pRat
     match stack with
     | b :: a :: rest => cont (a.feedback b sign) rest
+    | _ => throw "stack"
+  | "fbp" => do
+    let sign ← pRat
+    let given ← pEnv
+    match stack with
+    | b :: a :: rest => cont (a.feedbackP b sign (some given)) rest
     | _ => throw "stack"
   | name =>
     match stack with
@@ -267,6 +302,31 @@ def run : P String := do
       let env ← pEnv
       match linearizeD G env t X0 U0 eps with
       | .ok S => pure (showSSMats S)
+      | .error e => pure (showErr e)
+    | "linp" => do
+      let t ← pRat
+      let X ← pXArg
+      let U0 ← pVArg
+      let eps ← pRat
+      let env ← pEnv
+      match linearizeP G env t X U0 eps with
+      | .ok S => pure (showSSMats S)
+      | .error e => pure (showErr e)
+    | "dyn" => do
+      let t ← pRat
+      let x ← pList pRat
+      let u ← pList pRat
+      let env ← pEnv
+      match dynamicsD G env t x u with
+      | .ok v => pure ("ok" ++ showList v)
+      | .error e => pure (showErr e)
+    | "out" => do
+      let t ← pRat
+      let x ← pList pRat
+      let u ← pList pRat
+      let env ← pEnv
+      match outputD G env t x u with
+      | .ok v => pure ("ok" ++ showList v)
       | .error e => pure (showErr e)
     | "op" => do
       let t ← pRat
